@@ -1216,3 +1216,44 @@ impl<L: OwnedLockable + 'static> Pick<L> {
         (true, Some(RefHolder::new_owned(self.0.take().unwrap())))
     }
 }
+
+
+// ---------------------------------------------------------------------------------------
+// `&mut` access to the child of a retrying collection *whose members are references*, if
+// the library offers it for such members (inherent method wins over this fallback trait).
+
+pub struct NoAccess;
+pub trait ChildMutFallback {
+    fn child_mut(&mut self) -> NoAccess {
+        NoAccess
+    }
+}
+impl ChildMutFallback for RetryingLockCollection<CN> {}
+
+pub trait IntoChildOpt<'a> {
+    fn into_opt(self) -> Option<&'a mut CN>;
+}
+impl<'a> IntoChildOpt<'a> for &'a mut CN {
+    fn into_opt(self) -> Option<&'a mut CN> {
+        Some(self)
+    }
+}
+impl<'a> IntoChildOpt<'a> for NoAccess {
+    fn into_opt(self) -> Option<&'a mut CN> {
+        None
+    }
+}
+
+/// list `extra` once more in a retrying collection through its `&mut` child accessor;
+/// false if the library gives no such access for reference members
+pub fn relist_through_child_mut(c: &mut RetryingLockCollection<CN>, extra: Node) -> bool {
+    #[allow(unused_imports)]
+    use self::ChildMutFallback as _;
+    match c.child_mut().into_opt() {
+        Some(Cont::V(v)) => {
+            v.push(extra);
+            true
+        }
+        _ => false,
+    }
+}
